@@ -7,6 +7,9 @@ use crate::{Error, Result};
 mod envelope_file;
 mod pae_v1;
 
+#[cfg(in_toto_verif)]
+pub use envelope_file::EnvelopeFile;
+
 pub trait DSSEParser {
     fn pae_pack(payload_ver: String, payload: &[u8]) -> Vec<u8>;
     fn pae_unpack(bytes: &[u8]) -> Result<(Vec<u8>, String)>;
